@@ -41,7 +41,7 @@ PROPS = {
     "C14": {
         "engine": "kani", "module": "c14", "timeout": {"quick": 900, "thorough": 2400},
         "functions": ["expressions::evaluate_ast (Expr::Access, Expr::List with spreads)", "functions::BuiltInFunction::call (Len, Head, Tail, Slice, Concat, Unique, Sort, Reverse, Flatten, Zip, Chunk, Range)"],
-        "bounds": "lists of numbers of length <= 3 (any f64 payload; NaN excluded where order matters); index / slice bounds / chunk size symbolic integral doubles in a small range, any double for the totality harness",
+        "bounds": "lists of numbers of length <= 3 (any f64 payload; NaN excluded where order matters); index / slice bounds symbolic integral doubles in a small range, any double for the totality harness; flatten(chunk(l, n)) with the concrete sizes 2 and 3 on a 2-element list (size 1 and symbolic sizes end in CBMC Status: ERROR)",
         "outside": "strings (byte- vs character-based functions), records (keys/values/entries, group_by, count_by: IndexMap), sort_by, split/join, lists longer than 3; fractional indices (the statement does not define them)",
     },
     "C15": {
@@ -72,9 +72,9 @@ PROPS = {
     },
     "C13": {
         "engine": "kani", "module": "c13", "timeout": {"quick": 900, "thorough": 2400},
-        "functions": ["expressions::evaluate_binary_op_ast (via / into / where arms)", "functions::BuiltInFunction::call (Map, Filter)", "functions::FunctionDef::call"],
-        "bounds": "lists of 2 numbers / booleans; built-in callees abs, floor, min (index-accepting), to_bool, len",
-        "outside": "lambda and named recursive callees (Environment/HashMap), reduce / every / some, sort_by / group_by, lists longer than 2",
-        "assumptions": ["std::time::Instant::now stubbed with a fixed instant (only stored in the call-statistics log)"],
+        "functions": ["expressions::evaluate_binary_op_ast (via / into / where arms)", "functions::BuiltInFunction::call (Map, Filter, Abs, Min, Floor, ToBool, Len)", "functions::get_function_def", "functions::FunctionArity::can_accept (index passing)"],
+        "bounds": "lists of 0 or 2 numbers / booleans with symbolic contents; built-in callees abs, floor, min (index-accepting), to_bool, len",
+        "outside": "lambda and named recursive callees (Environment/HashMap, lambda bodies), reduce / every / some, sort_by / group_by, lists of other lengths, the f(x) call *expression* (Expr::Call is mis-modelled by Kani, DESIGN 2(12): application is the built-in's implementation on the same argument), FunctionDef::call's own depth guard / statistics / error context",
+        "assumptions": ["FunctionDef::call replaced by a dispatcher that keeps the arity check and calls the real BuiltInFunction::call of the callee on a constant selector for abs / min / floor / to_bool / len and fails the check for any other callee (util::stub_function_def_call_small_builtins)", "std::time::Instant::now stubbed with a fixed instant"],
     },
 }
